@@ -248,7 +248,7 @@ _RV_KW = ('Add', 'Sub', 'Mul', 'Eq', 'Ne', 'Lt', 'Le', 'Gt', 'Ge', 'Rem', 'Div',
 _INT_W = {'u8': 8, 'i8': 8, 'u16': 16, 'i16': 16, 'u32': 32, 'i32': 32, 'u64': 64, 'i64': 64, 'usize': 64, 'isize': 64, 'u128': 128, 'i128': 128, 'char': 32, 'bool': 1}
 
 class Exec:
-    def __init__(self, fns, models, enums, overflow_checks=True, max_steps=4_000_000, solver_timeout_ms=60_000):
+    def __init__(self, fns, models, enums, overflow_checks=True, max_steps=16_000_000, solver_timeout_ms=60_000):
         self.fns, self.models, self.enums, self.ovf = fns, models, enums, overflow_checks
         self.inlined = set(); self.modelled = set()
         self._stmt_cache = {}; self._term_cache = {}
